@@ -1028,6 +1028,79 @@ func Corpus(tier string, embedded []*Schema) []*Schema {
 		add(&Schema{Name: "revorder", Files: []*descriptorpb.FileDescriptorProto{fa, fb}, Generate: []string{"vc/revorder/b.proto", "vc/revorder/a.proto"}})
 	}
 
+	// ---- look-alikes: ordinary declarations that resemble what the generator treats specially when it goes by name or
+	// shape instead of asking the descriptor — messages called ...Entry with key/value fields (not map entries), messages
+	// named like the well-known types in a user package, a hand-written oneof called `_f` around a field f (not a
+	// proto3-optional), nested and top-level names that flatten alike, reserved field names with an explicit json_name
+	{
+		const pkg = "vc.lookalike"
+		f := file("vc/lookalike.proto", pkg, goPkg("lookalike", ""))
+		le := newMsg(pkg, "LogEntry")
+		le.field("ts", 1, tInt64, "")
+		le.field("text", 2, tString, "")
+		jr := newMsg(pkg, "Journal")
+		jle := jr.nested("LogEntry")
+		jle.field("key", 1, tString, "")
+		jle.field("value", 2, tString, "")
+		jp := jr.nested("Pair")
+		jp.field("key", 1, tString, "")
+		jp.field("value", 2, tBytes, "")
+		jr.repeated("entries", 1, tMessage, jle.path)
+		jr.mapField("by_id", 2, tString, tMessage, jle.path)
+		jr.field("pair", 3, tMessage, jp.path)
+		jr.field("first", 4, tMessage, le.path)
+		jr.mapField("pairs", 5, tInt32, tMessage, jp.path)
+		or := newMsg(pkg, "Order")
+		oi := or.nested("Item")
+		oi.field("n", 1, tInt32, "")
+		or.field("item", 1, tMessage, oi.path)
+		oit := newMsg(pkg, "OrderItem")
+		oit.field("m", 1, tInt32, "")
+		oit.field("order", 2, tMessage, or.path)
+		ty := newMsg(pkg, "Typed")
+		ty.field("type", 1, tString, "").JsonName = proto.String("@type")
+		ty.field("get", 2, tInt32, "").JsonName = proto.String("fetch")
+		ty.field("plain", 3, tString, "").JsonName = proto.String("Type")
+		op := newMsg(pkg, "Opt")
+		op.field("name", 1, tString, "")
+		oo := op.oneof("_timeout")
+		op.member(oo, "timeout", 2, tInt32, "")
+		oo2 := op.oneof("_label")
+		op.member(oo2, "label", 3, tString, "")
+		op.member(oo2, "label_id", 4, tInt64, "")
+		// (a real proto3-optional is not part of the corpus: the plugin does not announce FEATURE_PROTO3_OPTIONAL, so
+		// protoc never hands it one)
+		op.field("limit", 5, tInt32, "")
+		f.MessageType = append(f.MessageType, le.msg, jr.msg, or.msg, oit.msg, ty.msg, op.msg)
+		// the well-known names, in a user package
+		du := newMsg(pkg, "Duration")
+		du.field("seconds", 1, tInt64, "")
+		du.field("nanos", 2, tInt32, "")
+		ts := newMsg(pkg, "Timestamp")
+		ts.field("seconds", 1, tInt64, "")
+		ts.field("nanos", 2, tInt32, "")
+		an := newMsg(pkg, "Any")
+		an.field("type_url", 1, tString, "")
+		an.field("value", 2, tBytes, "")
+		va := newMsg(pkg, "Value")
+		vo := va.oneof("kind")
+		va.member(vo, "number_value", 2, tDouble, "")
+		va.member(vo, "string_value", 3, tString, "")
+		st := newMsg(pkg, "Struct")
+		st.mapField("fields", 1, tString, tMessage, va.path)
+		lv := newMsg(pkg, "ListValue")
+		lv.repeated("values", 1, tMessage, va.path)
+		fmk := newMsg(pkg, "FieldMask")
+		fmk.repeated("paths", 1, tString, "")
+		em := newMsg(pkg, "Empty")
+		bv := newMsg(pkg, "BoolValue")
+		bv.field("value", 1, tBool, "")
+		sv := newMsg(pkg, "StringValue")
+		sv.field("value", 1, tString, "")
+		f.MessageType = append(f.MessageType, du.msg, ts.msg, an.msg, va.msg, st.msg, lv.msg, fmk.msg, em.msg, bv.msg, sv.msg)
+		f.EnumType = append(f.EnumType, enum("NullValue", "NULL_VALUE", 0))
+		add(&Schema{Name: "lookalike", Files: []*descriptorpb.FileDescriptorProto{f}})
+	}
 	// ---- valid proto3 the repository's own schemas never use: a public import, an extension declared inside a message,
 	// a dependency whose Go package is called like a local of the generated code
 	{
@@ -1038,6 +1111,17 @@ func Corpus(tier string, embedded []*Schema) []*Schema {
 			om := newMsg(base+"."+optsPkg, "Settings")
 			om.field("verbose", 1, tBool, "")
 			fo.MessageType = append(fo.MessageType, om.msg)
+			// a message whose Go name starts like the file descriptor variable (File_…), with a nested enum and message
+			fm0 := newMsg(base+"."+optsPkg, "File")
+			fm0.msg.EnumType = append(fm0.msg.EnumType, enum("Kind", "REGULAR", 0, "DIRECTORY", 1))
+			fm0.field("kind", 1, tEnum, "."+base+"."+optsPkg+".File.Kind")
+			fm0.field("path", 2, tString, "")
+			fp := fm0.nested("Part")
+			fp.field("n", 1, tInt32, "")
+			fo0 := fm0.oneof("body")
+			fm0.member(fo0, "text", 3, tString, "")
+			fm0.member(fo0, "part", 4, tMessage, fp.path)
+			fo.MessageType = append(fo.MessageType, fm0.msg)
 			fi := file("vc/"+schema+"/"+inPkg+"/i.proto", base+"."+inPkg, goPkg(schema, inPkg))
 			im := newMsg(base+"."+inPkg, "Item")
 			im.field("id", 1, tInt64, "")
@@ -1239,6 +1323,11 @@ func Corpus(tier string, embedded []*Schema) []*Schema {
 		m.member(o, "a", 1, tString, "")
 		m.field("type_", 2, tInt32, "")
 		g.MessageType = append(g.MessageType, m.msg)
+		// the same through a getter: `get` becomes Get_, whose getter GetGet_ is the field protogen made of `get_get`
+		m2 := newMsg("vc.renameclash", "N")
+		m2.field("get", 1, tInt32, "")
+		m2.field("get_get", 2, tInt32, "")
+		g.MessageType = append(g.MessageType, m2.msg)
 		add(&Schema{Name: "renameclash", Files: []*descriptorpb.FileDescriptorProto{g}, Known: "F25"})
 	}
 
